@@ -62,6 +62,25 @@ CHECKS = {
             'maximum (incl. max=min=0); builds include -fsanitize=address,undefined and a perturbed heap so that missing zeroing '
             'or overlapping memcpy become visible. The no-wrap clause of the effective address is not decidable in bounds.',
             'Trusts the model in vf/interp.py; successful grows are only demanded up to 64 pages.', 'DESIGN.md section 7 C05'),
+    'C06': ('F1 end-to-end (wasmkit + refinterp + cexec)',
+            'PBT over instantiation shapes x two-instance histories: generated mixes of defined/imported memory, table, globals, '
+            'overlapping/passive/global-offset segments, start function; store model compared on memory (CRC + dumps), instance-'
+            'struct globals, table-slot identity, start trace, and cross-instance isolation/sharing',
+            'Model-based search: right after <module>Instantiate and after later calls, memory bytes, every global (struct field '
+            'and getter), every initialised table slot and the start-function host trace must equal the interpreter store; two '
+            'instances are bound to the same or to different imported objects and must share exactly those. Exports are called '
+            'under <module>_<name> for identifier-safe names and via the FuncExports table for exotic ones.',
+            'Trusts the reference interpreter store model; segments in bounds by construction.', 'DESIGN.md section 7 C06'),
+    'C11': ('F1 end-to-end (cexec compiler matrix)',
+            'PBT + differential across builds: modules from five generators with trap-free scripts, translated once and built '
+            'under cells of {gcc,clang}x{-O0..-O3}x{gnu89,default}x{plain, ASan+UBSan+float-cast-overflow}; oracle = no compile '
+            'error, no sanitizer report, transcript equal to the interpreter in every cell',
+            'Generated-input search over modules x compiler-matrix cells (quick: 6 cells per module, whole 32-cell matrix covered '
+            'every run; thorough: all cells): compile errors, sanitizer reports and any cross-build disagreement are violations; '
+            'inputs are restricted to non-trapping in-bounds calls as the property states. A names generator covers exotic '
+            'import/export/function names.',
+            'Trusts the sanitizers\' detection and the interpreter; sNaN immediates/arguments excluded (known finding under C02).',
+            'DESIGN.md section 7 C11'),
 }
 
 NOT_YET = {}
